@@ -225,7 +225,7 @@ def main(tier: str, seed: int) -> int:
     n = shard.ncpu()
     quick = tier == "quick"
     jobs = [
-        {"tier": tier, "seed": seed * 100 + i, "scripts": 3 if quick else 14, "bound": 2 if quick else 3, "max_dfs": 400 if quick else 6000, "pct": 40 if quick else 1500}
+        {"tier": tier, "seed": seed * 100 + i, "scripts": 3 if quick else 6, "bound": 2 if quick else 3, "max_dfs": 400 if quick else 2500, "pct": 40 if quick else 400}
         for i in range(n)
     ]
     for res in shard.pmap("checks.c23", "run_shard", jobs, timeout=300 if quick else 1700):
